@@ -2,6 +2,7 @@ package sx
 
 import (
 	"fmt"
+	"os"
 	"go/token"
 	"go/types"
 	"sort"
@@ -84,6 +85,7 @@ type Report struct {
 	RecoveredPanics int
 	BranchesKeptOnUnknown int
 	ForkSites map[string]int
+	Concretised map[string]int // large-array index sites where untouched cells were represented by one member
 }
 
 func newReport() *Report {
@@ -101,6 +103,12 @@ func (r *Report) merge(o *Report) {
 	r.Steps += o.Steps
 	r.RecoveredPanics += o.RecoveredPanics
 	r.BranchesKeptOnUnknown += o.BranchesKeptOnUnknown
+	for k, v := range o.Concretised {
+		if r.Concretised == nil {
+			r.Concretised = map[string]int{}
+		}
+		r.Concretised[k] += v
+	}
 	for k, v := range o.ForkSites {
 		if r.ForkSites == nil {
 			r.ForkSites = map[string]int{}
@@ -567,6 +575,8 @@ func lastPC(pc []*smt.Term) string {
 
 // choose selects one of the alternatives whose condition is feasible under the
 // current path condition. exhaustive: the disjunction of conds is valid.
+var traceSlow = os.Getenv("GOSX_TRACE_SLOW") != ""
+
 func (e *Engine) choose(conds []*smt.Term, exhaustive bool) int {
 	// trivial cases without consuming a decision slot
 	nFalse, trueIdx, nonFalse := 0, -1, -1
@@ -625,7 +635,11 @@ func (e *Engine) choose(conds []*smt.Term, exhaustive bool) int {
 				continue
 			}
 		}
+		t0 := time.Now()
 		r, m := e.sol.CheckT(e.pc, c, e.ndTerms, true, 3000)
+		if traceSlow && time.Since(t0) > 2*time.Second {
+			fmt.Fprintf(os.Stderr, "slow probe %.1fs at %s\n", time.Since(t0).Seconds(), e.where())
+		}
 		switch r {
 		case smt.Sat:
 			feas = append(feas, i)
